@@ -413,7 +413,16 @@ pub fn run_box_case(bytes: &[u8]) -> (Vec<String>, bool, Vec<u32>) {
                 let n = (g(1) % 9) as usize;
                 let vals: Vec<u32> = (0..n).map(|j| g(3 + j) as u32).collect();
                 cx.transfers += 1;
-                let (s, t): (BBox<[El<0>]>, Box<[El<1>]>) = match g(2) % 5 {
+                let (s, t): (BBox<[El<0>]>, Box<[El<1>]>) = match g(2) % 7 {
+                    5 => {
+                        // Iterator::collect_in straight into a boxed slice (exact and filtered iterators)
+                        use bumpalo::collections::CollectIn;
+                        (vals.iter().map(|&x| El::new(x)).collect_in::<BBox<[El<0>]>>(b), vals.iter().map(|&x| El::new(x)).collect())
+                    }
+                    6 => {
+                        use bumpalo::collections::CollectIn;
+                        (vals.iter().filter(|&&x| x % 3 != 0).map(|&x| El::new(x)).collect_in::<BBox<[El<0>]>>(b), vals.iter().filter(|&&x| x % 3 != 0).map(|&x| El::new(x)).collect())
+                    }
                     3 | 4 => {
                         // a vector with plenty of spare capacity (possibly truncated) that is the newest allocation
                         let mut v: BVec<El<0>> = BVec::with_capacity_in(2 * n + 4 + (g(12) as usize % 8), b);
